@@ -4,8 +4,7 @@
 -/
 import Bridge.Abs
 import PtaProofs.Lemmas.Worklist
-namespace Pta
-
+namespace Pta.Alg
 theorem verdictOf_mkRule (mt : Str → Str → Bool) (g : PGraph Str) (s o n d e : Bool) (A B : List Filter) :
     verdictOf mt g (mkRule s o n d e A B) =
       if (!(s || o || n)) || A.isEmpty || B.isEmpty then .err .improperlyConfigured
@@ -269,4 +268,4 @@ theorem only_exc_pass (mt : Str → Str → Bool) (g : PGraph Str) (d : Bool) (A
   rule_char
   grind
 
-end Pta
+end Pta.Alg
